@@ -90,7 +90,33 @@ func init() {
 		return BVBin("bvadd", BVBin("bvmul", BVBin("bvsub", x.Sec, y.Sec), billion), BVBin("bvsub", x.Nsec, y.Nsec))
 	})
 	reg("(time.Time).UTC", func(e *Engine, fn *ssa.Function, a []Value) Value { return timeOf(a[0]) })
-	reg("(time.Time).Round", func(e *Engine, fn *ssa.Function, a []Value) Value { return timeOf(a[0]) })
+	reg("(time.Time).Round", func(e *Engine, fn *ssa.Function, a []Value) Value {
+		t := timeOf(a[0])
+		d := a[1].(*T)
+		if !d.IsConst() {
+			panic(inconclusive{"time.Round with symbolic duration"})
+		}
+		switch d.SignedBV() {
+		case 1000000000: // nearest second, halves round up
+			up := BVCmp("bvuge", t.Nsec, BVConst(500000000, 64))
+			return &TimeVal{Sec: Ite(up, BVBin("bvadd", t.Sec, BVConst(1, 64)), t.Sec), Nsec: BVConst(0, 64)}
+		}
+		if d.SignedBV() <= 0 {
+			return t
+		}
+		panic(inconclusive{"time.Round with a duration other than one second"})
+	})
+	reg("(time.Time).Truncate", func(e *Engine, fn *ssa.Function, a []Value) Value {
+		t := timeOf(a[0])
+		d := a[1].(*T)
+		if d.IsConst() && d.SignedBV() == 1000000000 {
+			return &TimeVal{Sec: t.Sec, Nsec: BVConst(0, 64)}
+		}
+		if d.IsConst() && d.SignedBV() <= 0 {
+			return t
+		}
+		panic(inconclusive{"time.Truncate with a duration other than one second"})
+	})
 	reg("(time.Time).String", func(e *Engine, fn *ssa.Function, a []Value) Value { return StrConst("<time>") })
 	reg("(time.Duration).Nanoseconds", func(e *Engine, fn *ssa.Function, a []Value) Value { return a[0] })
 	reg("(time.Duration).String", func(e *Engine, fn *ssa.Function, a []Value) Value { return StrConst("<duration>") })
